@@ -318,6 +318,8 @@ def random_refine_case(seed):
             labels_arg = sorted(rng.sample([int(x) for x in segm.labels], rng.randint(1, segm.nlabels)))
         if rng.random() < 0.35:
             data = data - rng.uniform(1.0, 6.0)     # deblend on differently background-subtracted data: segments hold values <= 0
+        elif rng.random() < 0.25:
+            data = data + rng.choice([1.0e7, 3.0e7])     # a large un-subtracted pedestal: the structure is only resolved in double precision
         if quiet:
             npix = int(max(segm.areas)) // 2 + 1 if rng.random() < 0.5 else npix
         kw = dict(npixels=npix, nlevels=rng.choice([1, 4, 32]) if not quiet else 1, contrast=rng.choice([0, 0, 0.001, 0.05, 0.3, 1]),
